@@ -527,6 +527,12 @@ sort_int_nodups(KEY_TYPE *p, size_t n)
 	work = NULL;
 	if (n > QUICKSORT_BEATS_RADIXSORT)
 		work = (element_type *)malloc(n * sizeof(element_type));
+#ifdef BTREES_VERIF
+	if (work && verif_alloc_should_fail()) {
+		free(work);
+		work = NULL;
+	}
+#endif
 
 	if (work) {
 		element_type *out = radixsort_int(p, work, n);
